@@ -733,7 +733,7 @@ func ParseSpecFile(path string, pkg string, requirePrefix bool) (*SpecFile, erro
 				}
 				cl.Expr = e
 				cl.Text = body
-			case "modifies":
+			case "modifies", "locks_only":
 				if rest != "nothing" {
 					for _, part := range splitTopLevel(rest, ',') {
 						e, err := ParseExpr(part)
